@@ -56,6 +56,23 @@ def ndarray_request(draw):
         cand = tables[1]['cols'][0]['name']
         if cand.upper() not in {n.upper() for n in names}:
             tables[0]['name'] = cand
+    # sometimes two tables whose "table name + separator + column name" strings coincide although both parts differ
+    # (SPEC.LINE_ID / SPEC_LINE.ID, SPEC.OBJID / SPECOBJ.ID), the two columns being of different shape (round 9)
+    if nt > 1 and draw(st.integers(0, 5)) == 0:
+        t0, t1 = tables[0], tables[1]
+        sep = draw(st.sampled_from(['_', '_', '']))
+        x = draw(st.from_regex(r'[A-Z]{1,3}', fullmatch=True))
+        c0, c1 = t0['cols'][0], t1['cols'][0]
+        new1 = t0['name'].upper() + sep + x
+        newc = x + sep + c1['name']
+        if (new1 not in {t['name'].upper() for t in tables} and newc not in [c['name'] for c in t0['cols']]
+                and newc.lower() not in Y.RESERVED and new1.lower() not in Y.RESERVED):
+            t1['name'] = new1
+            c0['name'] = newc
+            if bool(c0['alen']) == bool(c1['alen']) and c0['kind'] != 'E':
+                c0['alen'] = 0 if c0['alen'] else 2
+                for r in t0['rows']:
+                    r[0] = draw(Y.cell_strategy(c0))
     Y.fix_enums(tables)
     # a numeric column in another table may carry the name of an enum column (e.g. `state` as label here, as a count there)
     for i, t in enumerate(tables):
